@@ -222,6 +222,15 @@ def _real_case_in(case, rnd, out, tmp) -> list[str]:
                     except se_.Error as e:
                         # on a connection without a current database the pre-check (90105) raises before any engine call
                         out.append("-" if getattr(e, "errno", None) == 90105 else _canon_exc(e))
+                elif k == "Y":           # conn.execute_string("st1; st2; …", return_cursors=True|False) on the cursor's connection
+                    ci, sts = ev[2:].split(":")
+                    text = "; ".join(_sql(st, rnd, qual[int(ci)]) for st in sts.split("+"))
+                    got = curs[int(ci)]._conn.execute_string(text, return_cursors=ev[1] == "s")  # noqa: SLF001
+                    if ev[1] == "s":
+                        got = list(got)
+                        out.append(_canon(sts.split("+")[-1], got[-1]) if got else "?execute_string returned no cursor")
+                    else:
+                        out.append("-" if list(got) == [] else f"?execute_string(return_cursors=False) returned {got!r}")
                 elif k == "X" and ev[1] == "w":     # the statement runs inside `with cursor:` and its error leaves the block
                     ci, st = ev[2:].split(":")
                     try:
@@ -436,7 +445,10 @@ def _random_case(rnd, nconn: int, length: int, envelope: bool, spell: int) -> di
     return {"init": init, "events": ev, "spell": spell}
 
 
-def _variant(case: dict, unnamed: bool, dbpath: bool, threads: bool = False) -> dict:
+SQL_ONLY = ("b", "c", "r", "s", "i", "d", "u", "k")
+
+
+def _variant(case: dict, unnamed: bool, dbpath: bool, threads: bool = False, estr: bool = False) -> dict:
     """configurations: connections opened WITHOUT database/schema (only those that run no MERGE, which needs a current
     database for its temporary table), and an instance WITH db_path (fresh directory) instead of in memory"""
     ev = list(case["events"])
@@ -452,6 +464,22 @@ def _variant(case: dict, unnamed: bool, dbpath: bool, threads: bool = False) -> 
                 if ci not in merges and not (i > 0 and ev[i - 1][0] == "X"):   # not the final reader
                     ev[i] = "Cn"
                 ci += 1
+    if estr:
+        # statements go through conn.execute_string, alternately with and without return_cursors; a BEGIN and the statement after
+        # it of the same cursor's connection are sent as ONE execute_string text when they are adjacent
+        flip = 0
+        for i, e in enumerate(ev):
+            if e[0] == "X" and e[1].isdigit() and e.split(":")[1][0] in SQL_ONLY and not e.split(":")[1].startswith("mu"):
+                ev[i] = ("Ys" if flip % 2 == 0 else "Yn") + e[1:]
+                flip += 1
+        merged = []
+        for e in ev:
+            if (estr != "nomerge" and merged and e[0] == "Y" and merged[-1][0] == "Y" and merged[-1].endswith(":b")
+                    and merged[-1][2:].split(":")[0] == e[2:].split(":")[0]):
+                merged[-1] = e[:2] + merged[-1][2:] + "+" + e.split(":")[1]
+            else:
+                merged.append(e)
+        ev = merged
     if threads:
         # the second cursor of every connection is created on a worker thread, conn.commit()/rollback() are called from one
         seen = set()
@@ -496,6 +524,7 @@ def _cases(chk) -> list[dict]:
             cases.append(dict(_variant(base, True, False), gen="fixed-unnamed"))
             cases.append(dict(_variant(base, False, True), gen="fixed-dbpath"))
             cases.append(dict(_variant(base, False, False, True), gen="fixed-threads"))
+            cases.append(dict(_variant(base, False, False, False, True), gen="fixed-execute_string"))
     # executemany and with-block scripts against a reader, dense probes
     for si in range(16, 28):
         a, b = CORE_SCRIPTS[si], CORE_SCRIPTS[10]
@@ -512,8 +541,9 @@ def _cases(chk) -> list[dict]:
         for order in _interleavings(len(a), len(b)):
             for pol in ([policy] if policy else ["dense", "sparse"]):
                 base = _pair_case(rnd, a, b, order, pol, api, rnd.randrange(1 << 30))
-                cfg = pi % 4     # 0: plain · 1: connections without database · 2: db_path instance · 3: cursors / commit from other threads
-                cases.append(dict(_variant(base, cfg == 1, cfg == 2, cfg == 3), gen="pairs" + ("", "-unnamed", "-dbpath", "-threads")[cfg]))
+                cfg = pi % 5     # 0: plain · 1: connections without database · 2: db_path instance · 3: other threads · 4: execute_string
+                cases.append(dict(_variant(base, cfg == 1, cfg == 2, cfg == 3, cfg == 4),
+                                  gen="pairs" + ("", "-unnamed", "-dbpath", "-threads", "-execute_string")[cfg]))
     chk.extra["exhaustive_part"] = (f"{npairs} (seeded sample of {len(pairs)}) ordered pairs of the {len(CORE_SCRIPTS)} core scripts x ALL interleavings "
                                     f"(C(len a + len b, len a) each)")
     # B. finding scripts against a reader, all interleavings
@@ -529,13 +559,27 @@ def _cases(chk) -> list[dict]:
     for i in range(nrand):
         nconn = rnd.choice([2, 3, 3])
         base = _random_case(rnd, nconn, rnd.randint(3, 9), envelope=(i % 5 != 0), spell=rnd.randrange(1 << 30))
-        cases.append(dict(_variant(base, i % 6 == 1, i % 6 == 2, i % 6 == 3), gen="random" + {1: "-unnamed", 2: "-dbpath", 3: "-threads"}.get(i % 6, "")))
+        # (random histories may leave the envelope: a multi-statement text would stop at its first failing statement, so no merging there)
+        cases.append(dict(_variant(base, i % 6 == 1, i % 6 == 2, i % 6 == 3, "nomerge" if i % 6 == 4 else False),
+                          gen="random" + {1: "-unnamed", 2: "-dbpath", 3: "-threads", 4: "-execute_string"}.get(i % 6, "")))
     return cases
 
 
 # ------------------------------------------------------------------------------------------------
 # verdict
 # ------------------------------------------------------------------------------------------------
+
+def _mstmt(e: str) -> str:
+    """one SQL statement event in the model's alphabet"""
+    cur, st = e.split(":")
+    if st.startswith("tr"):
+        return f"{cur}:z{st[2:]}"
+    if st.startswith("ac"):
+        return f"{cur}:m"
+    if st == "av":
+        return f"{cur}:k"
+    return re.sub(r":mu", ":u", re.sub(r":fm\d*$", ":fm", e))
+
 
 def _model_view(case):
     """events as the model sees them, and for every real event the index of the model event whose observation it is
@@ -554,6 +598,12 @@ def _model_view(case):
                 fixed = "B"
         elif e[0] in "MR" and e[1] == "t":
             mev.append(e[0] + e[2:])
+        elif e[0] == "Y":
+            cur, sts = e[2:].split(":")
+            for st in sts.split("+"):
+                mev.append(_mstmt(f"X{cur}:{st}"))
+            if e[1] == "n":
+                fixed = "-"           # return_cursors=False: nothing to observe, but every statement must have run
         elif e[0] == "D":
             # a description that raises is a failing Catalog statement on that connection (DESCRIBE of nothing: 2003): like any
             # statement that binds against the database it pins a lazy snapshot, and it leaves the transaction usable
@@ -611,6 +661,8 @@ def _check(chk, case, real, reply) -> None:
     def view(obs, i):
         o = _norm_model(mev[rmap[i]], obs[rmap[i]])
         # executemany whose second row cannot be bound: the bind error is what the caller sees – unless the first row already failed
+        if expect[i] == "-":
+            return o if o[:1] in "EXAN?" else "-"      # an error raised by execute_string is still observed
         return expect[i] if (expect[i] and (o.startswith("n") or o == "1")) else o
     impl = [view(mi, i) for i in range(len(evs))]
     spec = [view(ms, i) for i in range(len(evs))]
@@ -630,7 +682,7 @@ def _check(chk, case, real, reply) -> None:
         raise common.Infra(f"length mismatch real={len(real)} spec={len(spec)} events={len(evs)}")
     # BEGIN and COMMIT/ROLLBACK *inside* a transaction: the property pins no result rows (only COMMIT/ROLLBACK without a
     # transaction must give the status row).  Accept exactly [] or the status row there (model symbol `e`).
-    real = [("e" if (r == "S" and "e" in (spec[i], impl[i]) and evs[i][0] == "X" and evs[i].split(":")[1] in ("b", "c", "r")) else r)
+    real = [("e" if (r == "S" and "e" in (spec[i], impl[i]) and evs[i][0] in "XY" and evs[i].split(":")[1].split("+")[-1] in ("b", "c", "r")) else r)
             for i, r in enumerate(real)]
     diff_spec = [i for i in range(len(evs)) if spec[i] != "I" and real[i] != spec[i]]
     if not diff_spec:
